@@ -6,7 +6,11 @@
 use crate::log::{self, K};
 use crate::spec::header::{self, Decl};
 use crate::util::{show, Distinct, Groups};
-use mc_macrocore::{build, Built, Trie};
+#[cfg(feature = "direct")]
+use mc_macrocore::{build, Built};
+
+/// (spelled path, is_query) -> declaration index
+pub type Trie = BTreeMap<(Vec<String>, bool), usize>;
 use microscpi::Node;
 use serde_json::json;
 use std::collections::{BTreeMap, BTreeSet};
@@ -169,6 +173,10 @@ pub struct DirectStats {
 /// One declaration set through the real `Tree::insert` vs the specification.
 /// Violations are added to `g` with feature `property` = C01 (trie differs)
 /// or C14 (accept / reject differs).
+#[cfg(not(feature = "direct"))]
+pub fn check_set_direct(_texts: &[&str], _g: &mut Groups, _st: &mut DirectStats) {}
+
+#[cfg(feature = "direct")]
 pub fn check_set_direct(texts: &[&str], g: &mut Groups, st: &mut DirectStats) {
     let decls: Vec<Decl> = texts.iter().map(|t| header::parse_decl(t)).collect();
     // a declaration that no header can reach at all, written twice: neither "reachable by the
